@@ -169,11 +169,16 @@ def run(ctx):
     # end to end: scripted TCP servers, real ServantProxy, calls made with current.SetClientHash
     rc, so, se = sh([exe, "e2e", "-seed", str(ctx.seed), "-out", out, "-first-u", str(len(unis) + 1),
                      "-first-h", str(len(hists) + 1), "-scenarios", str(ctx.pick(3, 12))], timeout=300, check=False)
+    e2e_failed = None
     if rc != 0:
-        raise Inconclusive("end-to-end driver failed (%d):\n%s\n%s" % (rc, so[-2000:], se[-3000:]))
-    e2e_meta = json.load(open(os.path.join(out, "e2e_meta.json")))
-    unis += load_ndjson(os.path.join(out, "e2e_unis.ndjson"))
-    hists += load_ndjson(os.path.join(out, "e2e_hists.ndjson"))
+        # the end-to-end driver could not complete (e.g. the tree routes a call to a non-endpoint): the selector-level
+        # corpus is still judged; only if that finds nothing is the run inconclusive
+        e2e_failed = "end-to-end driver failed (%d):\n%s\n%s" % (rc, so[-2000:], se[-3000:])
+        e2e_meta = {"failed": e2e_failed[-400:]}
+    else:
+        e2e_meta = json.load(open(os.path.join(out, "e2e_meta.json")))
+        unis += load_ndjson(os.path.join(out, "e2e_unis.ndjson"))
+        hists += load_ndjson(os.path.join(out, "e2e_hists.ndjson"))
     nlook = sum(len(st["ans"]) for h in hists for st in h["steps"])
     nsteps = sum(len(h["steps"]) for h in hists)
     ctx.log("corpus: %d universes, %d histories, %d steps, %d lookups" % (len(unis), len(hists), nsteps, nlook))
@@ -277,6 +282,8 @@ def run(ctx):
         b = bs[0]
         samples.append({"kind": "flagged", "signature": sig, "what": describe(b, unis[hists[b["h"] - 1]["u"] - 1], hists[b["h"] - 1]), "count": len(bs)})
     distinct = {(h["u"], tuple(sorted(st["list"])), i, a) for h in hists for st in h["steps"] for i, a in enumerate(st["ans"])}
+    if e2e_failed and not ctx.violations:
+        raise Inconclusive(e2e_failed)
     ctx.coverage = {
         "states": mc_states + rmain.distinct,
         "transitions": mc_trans + rmain.generated,
